@@ -226,7 +226,8 @@ pub fn build(tier: Tier) -> Check<'static> {
             }
             acc.nontrivial += 1;
             acc.transitions += 1;
-            let top = "`include \"body.svh\"\n";
+            // every other case: multi-byte characters ahead of the include (byte and character offsets differ)
+            let top = if i % 2 == 0 { "`include \"body.svh\"\n" } else { "// généré à 25°C\nstring s = \"é\";\n`include \"body.svh\"\n" };
             let incs = vec![dir.clone()];
             let r = api::parse_sv_str(top, Path::new("top.sv"), &Defs::new(), &incs, false, false);
             expect_parse_error_at(acc, r, &body, p, json!({"seed": s[si].id, "offset": p, "included_file": clip(&m, 2000), "top": top}), &format!("byte \\x01 at {} of included seed {}", p, s[si].id));
